@@ -270,6 +270,18 @@ func (g *resGen) fillField(m protoreflect.Message, f protoreflect.FieldDescripto
 	if f.Message() == nil {
 		return // only primitives carry scalar fields; handled in fillPrimitive
 	}
+	if f.Message().FullName() == "google.protobuf.Any" && !f.IsList() {
+		// a single Any-typed field: packed ContainedResource
+		cr := &bcrpb.ContainedResource{}
+		sub := &resGen{s: g.s, o: smallGen, budget: smallGen.Budget}
+		sub.fillContained(cr.ProtoReflect(), 1)
+		a, err := anypb.New(cr)
+		if err != nil {
+			panic(err)
+		}
+		m.Set(f, protoreflect.ValueOfMessage(a.ProtoReflect()))
+		return
+	}
 	if f.Message().FullName() == "google.protobuf.Any" {
 		n := 1 + g.s.Intn(2)
 		l := m.Mutable(f).List()
@@ -683,15 +695,25 @@ func pairObject(n *Node, m protoreflect.Message, j map[string]any, jx map[string
 		}
 		fmd := f.Message()
 		if fmd.FullName() == "google.protobuf.Any" {
-			arr, _ := src[key].([]any)
 			used[key] = true
-			l := v.List()
-			if len(arr) != l.Len() {
-				pe.add("%s.%s: %d JSON items vs %d proto items", md.Name(), key, len(arr), l.Len())
+			var arr []any
+			var anys []protoreflect.Message
+			if f.IsList() {
+				arr, _ = src[key].([]any)
+				l := v.List()
+				for i := 0; i < l.Len(); i++ {
+					anys = append(anys, l.Get(i).Message())
+				}
+			} else { // Parameters.parameter.resource: a single Any
+				arr = []any{src[key]}
+				anys = []protoreflect.Message{v.Message()}
+			}
+			if len(arr) != len(anys) {
+				pe.add("%s.%s: %d JSON items vs %d proto items", md.Name(), key, len(arr), len(anys))
 				return true
 			}
-			for i := 0; i < l.Len(); i++ {
-				a := l.Get(i).Message().Interface().(*anypb.Any)
+			for i := 0; i < len(anys); i++ {
+				a := anys[i].Interface().(*anypb.Any)
 				cr := &bcrpb.ContainedResource{}
 				if err := a.UnmarshalTo(cr); err != nil {
 					pe.add("contained: %v", err)
@@ -699,7 +721,7 @@ func pairObject(n *Node, m protoreflect.Message, j map[string]any, jx map[string
 				}
 				inner := unwrapCR(cr)
 				obj, _ := arr[i].(map[string]any)
-				k := &Node{Name: name, JSONKey: key, Msg: inner, JSON: obj, ViaAny: true, IsList: true, Index: i, TypeName: string(inner.ProtoReflect().Descriptor().Name())}
+				k := &Node{Name: name, JSONKey: key, Msg: inner, JSON: obj, ViaAny: true, IsList: f.IsList(), Index: i, TypeName: string(inner.ProtoReflect().Descriptor().Name())}
 				n.addKid(k)
 				pairObject(k, inner.ProtoReflect(), obj, nil, true, pe)
 			}
